@@ -74,13 +74,24 @@ Theorem C13_dupburst_is_burst_plus_withheld : forall s h ks c,
 Proof. exact dupburst_withheld. Qed.
 Print Assumptions C13_dupburst_is_burst_plus_withheld.
 
+(* A response processed while another request is inside the connection writer ([RespDuring h r], the
+   reader goroutine of a fast peer): when the request is not withheld the remembered requests are
+   those of "answer r, then request h" - the answered request is forgotten although the write of the
+   new one was under way, so asking it again sends it again (the monitor's withheld clause). *)
+Theorem C13_response_during_request : forall s h r,
+  find_hash h (reqs s) = None ->
+  fst (step s (RespDuring h r)) = fst (step (fst (step s (Response (Some r)))) (Request h)) /\
+  snd (step s (RespDuring h r)) = snd (step (fst (step s (Response (Some r)))) (Request h)).
+Proof. exact respduring_is_response_then_request. Qed.
+Print Assumptions C13_response_during_request.
+
 (* Non-vacuity: a history that withholds a duplicate, re-enables it by a response,
    and retrieves a notification, with the monitor accepting every step strictly. *)
 Example C13_nonvacuous :
-  let ops := [Request 3; Request 3; Response (Some 1%N); Request 3; Notify 9; Lookup 3; Other 2; Burst [4; 3; 2]%N; DupBurst 3 [2; 4]%N] in
+  let ops := [Request 3; Request 3; Response (Some 1%N); Request 3; Notify 9; Lookup 3; Other 2; Burst [4; 3; 2]%N; DupBurst 3 [2; 4]%N; RespDuring 5 2; Request 3] in
   map snd (snd (run init ops)) =
     [[Written 1 0 3; RetCtr 1]; [RetCtr 1]; []; [Written 2 0 3; RetCtr 2];
      [Written 3 1 9; RetCtr 3]; [Found 9]; [Written 4 2 0]; [Written 5 4 0; Written 6 3 0; Written 7 2 0];
-     [RetCtr 2; Written 8 2 0; Written 9 4 0]]%N /\
+     [RetCtr 2; Written 8 2 0; Written 9 4 0]; [Written 10 0 5; RetCtr 10]; [Written 11 0 3; RetCtr 11]]%N /\
   strictly_accepted (judge minit sinit (snd (run init ops))) = true.
 Proof. vm_compute. split; reflexivity. Qed.
